@@ -7,7 +7,8 @@ FUNCTIONS = [('typing', 'global_variables.__call__'), ('typing', 'global_variabl
              ('devices', 'SAMPLER'), ('devices', 'DM'), ('devices', 'FIBER'), ('devices', 'LPF'), ('devices', 'BPF'), ('devices', 'PD'),
              ('devices', 'ADC'), ('ppm', 'PPM_ENCODER'), ('ppm', 'PPM_DECODER'), ('ppm', 'HDD'), ('ppm', 'SDD'),
              ('ppm', 'BER_analizer'), ('ook', 'BER_analizer'), ('ppm', 'DSP')]
-BOUNDS = {'grid step': 'one gv(...) call with every subset of {sps, R, fs, wavelength, N} (+ a custom keyword) or one clean(), from an arbitrary '
+BOUNDS = {'call-history differential': 'for the blocks of this property registered in vf/history.py (concrete orders / bandwidths / gains / gv configurations, symbolic samples): the call repeated in a session that first ran it with one parameter or one gv setting changed equals the call in a fresh library instance',
+          'grid step': 'one gv(...) call with every subset of {sps, R, fs, wavelength, N} (+ a custom keyword) or one clean(), from an arbitrary '
                        'consistent pre-state: pre sps in {1,2}, pre N in {None,1,2}, new sps in {1,3}, fs = R*k with k in {2,3}, new N in {1,2}; '
                        'R, fs, wavelengths and the custom value are symbolic reals. The invariant is inductive, so histories of any length are covered.',
           'purity sweep': 'each listed public function on symbolic inputs in its smallest configuration (N*sps <= 8; filters on 17-sample records)'}
@@ -409,4 +410,6 @@ def configs(tier):
     from vf.props import C11 as _C11
     for kind in ('LPF', 'BPF'):
         out.append((f'history-{kind}-after-gv-reconfigured', _C11.scen_history, dict(kind=kind), {'validate': 1}))
+    from vf import history as _history        # call-history differential of this property's blocks (vf/history.py)
+    out += _history.configs_for('C14')
     return out
